@@ -185,9 +185,21 @@ def changed_lines():
         else:
             merged.append([f, list(add), n_removed, add[-1][0] if add else None])
     res = {}
+    DIAG = re.compile(r"^\s*(?:log::)?(?:debug|info|warn|error|trace|debug_assert|debug_assert_eq|debug_assert_ne|println|eprintln)!\s*[\(\[{]")
+    CONTROL = re.compile(r"^\s*(?:return|continue|break)\b[^=]*;?\s*$")
     for f, add, n_removed, _ in merged:
         novel = []
+        depth_in_diag = 0
         for n, text in add:
+            code = re.sub(r"//.*", "", text)
+            if depth_in_diag > 0:                         # continuation lines of a log / debug-assert invocation
+                depth_in_diag += code.count("(") - code.count(")")
+                continue
+            if DIAG.match(code):                          # diagnostics say nothing about results: not judged
+                depth_in_diag = max(code.count("(") - code.count(")"), 0)
+                continue
+            if CONTROL.match(code):                       # a bare return / continue / break carries no computation of its own
+                continue
             c = _norm_code(text)
             if len(re.sub(r"[^A-Za-z0-9]", "", c)) < 2 or c in removed:      # punctuation only, or a line that merely moved / was re-worded
                 continue
